@@ -12,7 +12,10 @@
    content of an item that the consumer still holds may change once a later transport read has
    been issued through the same stream.  With the deviation off every change is rejected; with it
    on a change that no later read explains is still rejected, and an explained one is reported
-   with a KNOWN line. *)
+   with a KNOWN line.  The finding is about an item k whose successor arrives in a later read: an item
+   that was yielded while the beginning of a further frame was already in the buffer (`early') is not
+   covered by it - zlink only yields items once the bytes read end with a terminator - so a change of
+   such an item is rejected as well. *)
 EXTENDS Framing, Json, IOUtils, TLC, FiniteSets
 
 CONSTANT AllowHeldClobber
@@ -28,10 +31,11 @@ VARIABLES l,
           nw,        \* transport writes seen
           items,     \* number of items yielded
           stale,     \* items yielded before the latest transport read (their bytes may have been overwritten)
+          early,     \* items yielded while part of a further frame had already been handed over
           kf,        \* the known C11 deviation was witnessed in this scenario
           sid
-tvars == <<fr, total, maxb, got, k, closed, eofSeen, rdErr, dead, l, cs, docs, st, cur, open, nw, items, stale, kf, sid>>
-cvars == <<cs, docs, st, cur, open, nw, items, stale, kf, sid>>
+tvars == <<fr, total, maxb, got, k, closed, eofSeen, rdErr, dead, l, cs, docs, st, cur, open, nw, items, stale, early, kf, sid>>
+cvars == <<cs, docs, st, cur, open, nw, items, stale, early, kf, sid>>
 
 IsEv(e) == l <= Len(Rec) /\ Rec[l].ev = e /\ l' = l + 1
 
@@ -44,27 +48,27 @@ NothingOwed == ~open /\ NextExpecting(cur) > Len(cs)
 TInit == /\ l = 1 /\ fr = <<>> /\ total = 0 /\ maxb = 0 /\ got = 0 /\ k = 0
          /\ closed = FALSE /\ eofSeen = FALSE /\ rdErr = FALSE /\ dead = FALSE
          /\ cs = <<>> /\ docs = <<>> /\ st = "build" /\ cur = 0 /\ open = FALSE /\ nw = 0
-         /\ items = 0 /\ stale = {} /\ kf = FALSE /\ sid = ""
+         /\ items = 0 /\ stale = {} /\ early = {} /\ kf = FALSE /\ sid = ""
 
 TReset == /\ IsEv("reset")
           /\ fr' = Rec[l].frames /\ total' = Rec[l].total /\ maxb' = Rec[l].MAXB
           /\ got' = 0 /\ k' = 0 /\ closed' = FALSE /\ eofSeen' = FALSE /\ rdErr' = FALSE /\ dead' = FALSE
           /\ cs' = Rec[l].calls /\ docs' = Rec[l].docs /\ st' = "build" /\ cur' = 0 /\ open' = FALSE /\ nw' = 0
-          /\ items' = 0 /\ stale' = {} /\ kf' = FALSE /\ sid' = Rec[l].sid
+          /\ items' = 0 /\ stale' = {} /\ early' = {} /\ kf' = FALSE /\ sid' = Rec[l].sid
 
-TSend == IsEv("send") /\ st = "build" /\ st' = "sending" /\ UNCHANGED <<fvars, cs, docs, cur, open, nw, items, stale, kf, sid>>
+TSend == IsEv("send") /\ st = "build" /\ st' = "sending" /\ UNCHANGED <<fvars, cs, docs, cur, open, nw, items, stale, early, kf, sid>>
 \* all calls reach the transport in one write, in chain order, each followed by one NUL
 TWrite == /\ IsEv("write") /\ st = "sending" /\ nw = 0
           /\ Rec[l].docs = docs /\ Rec[l].tail = 0
-          /\ nw' = 1 /\ UNCHANGED <<fvars, cs, docs, st, cur, open, items, stale, kf, sid>>
+          /\ nw' = 1 /\ UNCHANGED <<fvars, cs, docs, st, cur, open, items, stale, early, kf, sid>>
 TSent == IsEv("sent") /\ st = "sending" /\ nw = 1 /\ st' = "sent"
-         /\ UNCHANGED <<fvars, cs, docs, cur, open, nw, items, stale, kf, sid>>
+         /\ UNCHANGED <<fvars, cs, docs, cur, open, nw, items, stale, early, kf, sid>>
 
 \* a transport read: legitimate only while something is owed (or after the stream, for later exchanges)
 TChunk == /\ IsEv("chunk") /\ Hand(Rec[l].n)
           /\ (st = "sent" => ~NothingOwed)
           /\ stale' = 1..items
-          /\ UNCHANGED <<cs, docs, st, cur, open, nw, items, kf, sid>>
+          /\ UNCHANGED <<cs, docs, st, cur, open, nw, items, early, kf, sid>>
 TPending == IsEv("pending") /\ st = "sent" /\ ~NothingOwed /\ UNCHANGED <<fvars, cvars>>
 
 \* the stream yields an item: the next frame, answering the next call that expects a reply
@@ -78,18 +82,19 @@ TItem == /\ IsEv("item") /\ st = "sent" /\ ~NothingOwed
                /\ cur' = c
                /\ open' = (e.cls = "success" /\ e.cont)
          /\ items' = items + 1
+         /\ early' = IF \E j \in 0..Len(fr) : got = EndOf(j) THEN early ELSE early \cup {items + 1}
          /\ UNCHANGED <<cs, docs, st, nw, stale, kf, sid>>
 
 \* what safe code sees in an item it still holds
 TCheck == /\ IsEv("check")
           /\ LET e == Rec[l] IN
              \/ e.same /\ kf' = kf
-             \/ ~e.same /\ AllowHeldClobber /\ e.k \in stale /\ kf' = TRUE
-          /\ UNCHANGED <<fvars, cs, docs, st, cur, open, nw, items, stale, sid>>
+             \/ ~e.same /\ AllowHeldClobber /\ e.k \in stale /\ e.k \notin early /\ kf' = TRUE
+          /\ UNCHANGED <<fvars, cs, docs, st, cur, open, nw, items, stale, early, sid>>
 
 \* the stream ends exactly when nothing more is owed
 TStreamEnd == /\ IsEv("stream_end") /\ st = "sent" /\ NothingOwed
-              /\ st' = "ended" /\ UNCHANGED <<fvars, cs, docs, cur, open, nw, items, stale, kf, sid>>
+              /\ st' = "ended" /\ UNCHANGED <<fvars, cs, docs, cur, open, nw, items, stale, early, kf, sid>>
 
 \* later exchanges on the same connection find their frames untouched
 TClose == IsEv("close") /\ Close /\ UNCHANGED cvars
